@@ -37,6 +37,8 @@ func main() {
 		err = cmdPlaceholder(*in, *out)
 	case "config":
 		err = cmdConfig(*in, *out)
+	case "tags":
+		err = cmdTags(*in, *out)
 	case "cache":
 		err = cmdCache(*in, *out, *names)
 	default:
